@@ -190,6 +190,19 @@ def run(tier, seed):
         except Exception:
             continue
         reprs.append((s, str(c.selectors)))
+    # long values: re.Pattern's repr cuts the pattern text at 200 characters (no closing quote), :-soup-contains and :lang keep theirs
+    for k_ in range(6 if tier == 'quick' else 60):
+        long_ = ''.join(rnd.choice(['data:image/png;base64,', 'iVBORw0KGgo', "it's", '"q"', ' ', '-', 'x.y', '(', ']', '\\', 'é']) for _ in range(rnd.randint(30, 60)))
+        esc = long_.replace('\\', '\\\\').replace('"', '\\"')
+        s = rnd.choice(['img[src^="%s"] + p.caption', '[a="%s" i]', 'p:-soup-contains("%s")', ':lang("%s")', '[a~="%s"], [b|="%s"]'.replace('%s', '%s', 1)])
+        s = s.replace('%s', esc)
+        try:
+            with warnings.catch_warnings():
+                warnings.simplefilter('ignore')
+                c = sv.compile(s)
+        except Exception:
+            continue
+        reprs.append((s, str(c.selectors)))
     reprs.sort(key=lambda x: len(x[1]))
     nmodel = 40 if tier == 'quick' else 1500
     outs = drv.run([f'(pretty {s_str(r)})' for _, r in reprs[:nmodel]]) + [None] * max(0, len(reprs) - nmodel)
